@@ -31,7 +31,7 @@ func Spec(t *rapid.T) *hist.DSpec {
 	case "cmp":
 		d.Type = rapid.SampledFrom([]string{"cmp:num", "cmp:str"}).Draw(t, "cmp")
 	case "vl":
-		d.Type = rapid.SampledFrom([]string{"vl:str", "vl:i32"}).Draw(t, "vl")
+		d.Type = rapid.SampledFrom([]string{"vl:str", "vl:str", "vl:i32", "vl:i64", "vl:u32", "vl:u64", "vl:f32", "vl:f64"}).Draw(t, "vl")
 	default:
 		d.Type = kind
 	}
